@@ -52,6 +52,15 @@ CHECKS = {
  "C14": (E1, "exhaustive enumeration: all 65 536 (a,b) pairs for 8-bit types, boundary pairs for wider types, x grid + all f32 x in [0,1] for extreme pairs (thorough)",
          "lerp laws decided for every enumerated (type,a,b,x): endpoints exact, a=b, betweenness, monotone up to float rounding, round-to-nearest of the real interpolation, no panic, glam component-wise.",
          "values not exactly representable in f32 are outside the statement; Quat/DQuat skipped", "DESIGN.md 3/C14"),
+ "C15": (E3, "exhaustive enumeration of a bounded timeline! grammar: every sentence expanded in-process by the real macro source and compared structurally with the documented reading (Layer A); a covering subset compiled with the real proc macro and executed against builder twins, ill-formed sentences compiled to confirm rejection (Layer B, conformance of A to real compilation)",
+         "All argument orders (with keyframes interleaved) for every subset of arguments, all combinations of literal forms x keyframe positions/bodies in canonical order, all merged lists of 1..3 members; each expansion normalised into a builder program and compared with the reading of the sentence (numbers within 1 ulp of the decimal). Program-space enumeration is the right level for a translation whose defects are per-production.",
+         "bounded grammar; literals read as decimals (1 ulp); Layer B is a systematic subset of Layer A", "DESIGN.md 3/C15"),
+ "C16": (E3, "exhaustive enumeration of a bounded animator! grammar in-process (Layer A) + compiled covering family whose macro-built and builder-built animators are driven through ALL histories of depth <= 4 (Layer B)",
+         "Every default clause form x every list of 0..2 (3) arms over state sets x timelines (incl. default keyframes, merged lists): the expansion is parsed into an animator-builder program and compared with the documented reading; compiled twins must agree bit-for-bit on state, values, is_ended after every operation of every history.",
+         "bounded grammar; arm timelines are bound to the builder by C15", "DESIGN.md 3/C16"),
+ "C17": (E3, "exhaustive enumeration of struct shapes (1..4 fields quick, up to 6 thorough; 6 field types; all #[animate] subsets; 3 visibilities; local/remote) expanded in-process by the real derive source and checked item by item (Layer A) + compiled shape family with run-time checks (Layer B)",
+         "For every shape the generated API must mention exactly the animated field set with the right types (setters, keyframe data, sub-timelines, keyframe_from, values_from, update, start_with, Target, visibility); compiled shapes are exercised: setter presence, keyframe_from, untouched fields, per-field interpolation vs a linear reference, metadata.",
+         "field names f0..f5, six numeric types; generics/tuple structs unsupported by the derive are outside the statement", "DESIGN.md 3/C17"),
  "C20": (E1, "exhaustive enumeration of extreme configurations x boundary times x operations under catch_unwind, in a debug and a release build whose result digests must agree",
          "All u32-boundary repeat counts, extreme cycles/delays, times +-0..2 ulp of every phase boundary, huge advances; no panic, finite, within keyframe range, debug==release.",
          "validity bound: total duration <= f32::MAX", "DESIGN.md 3/C20"),
